@@ -225,6 +225,10 @@ def run(prog: Program, rep: Report, tier: str):
     rep.rule("R05.7", "every documented source shape converts alike: pairs are any 2-element collections (shared with R18.8)", floor=1)
     rep.rule("R05.6", "abstract routine constructors store t, origin(t), context, var", floor=8)
     rep.rule("R05.5", "tolerant field-routine lookups see through forward references (TypeContext rules, shared with C16)", floor=5)
+    rep.rule("R05.8", "member annotations are resolved per defining class (no single namespace for the whole MRO; shared with R11.8)", floor=1)
+    from . import c11 as _c11
+
+    _c11.hints_namespace(prog, rep, "R05.8")
     facts = {}
     for d in ("marshal", "unmarshal"):
         ff = factory_facts(prog, d)
